@@ -4,3 +4,13 @@ def fill(check, NA):
           "Trusted: Coq kernel + vm_compute; harness decomposition of sympy output (re-evaluated by the validator, so it cannot cause a wrong acceptance of a different object than decomposed; identification with the printed formula is cross-checked on n<12); systems are sampled (theorem is per instance, for all n); parameters instantiated at rational points; rounded-result tolerance only compared numerically. No axioms.",
           "Coq proof: verified validator (translation validation of CAS output) + kernel-evaluated instances",
           "5/C04")
+    check("C05",
+          "Machine-checked theorem (Coq): check_types_sound / _pointwise — if the executable validator accepts (flat program, types) then every state reachable in ANY iteration and at every program point is typed (guard-false iterations included). Polar's own flat program and typedefs, for several fixed-point budgets, are decided by the kernel through the validator; rejections go to an exact reachable-state search under the flat semantics.",
+          "Trusted: Coq kernel + vm_compute; structural dump of Polar's objects (tasks_core.py); programs sampled by the generator; the validator is flow-insensitive (cartesian, default always included) so sound types it cannot confirm are counted as unvalidated, never as violations unless a reachable witness exists. Known finding: defaults dropped under a loop guard (see known_findings.json). No axioms.",
+          "Coq proof: verified validator for types + kernel-evaluated instances + exact reachable-state search",
+          "5/C05")
+    check("C01",
+          "Machine-checked composition theorem (Coq): validated types (C05) + exact one-step system (C03) + validated closed form (C04) imply closed form = exact moments at EVERY n. Per generated program: all closed forms of all system monomials are kernel-validated against Polar's matrix; end to end, Polar's printed closed forms are compared with the exact moments of the SOURCE program under the Coq reference semantics (independent oracle) for n <= N.",
+          "Trusted: Coq kernel + vm_compute; printers of the shared program AST; oracle compaction step (cross-checked against the plain semantics for n<=2 on every case); programs sampled; the end-to-end comparison is bounded in n (the unbounded statement is carried by the validators' theorems on Polar's own intermediate objects). Finite discrete programs only in the oracle. No axioms.",
+          "Coq proof: composition theorem + verified validators on Polar's intermediate objects + reference-semantics oracle (differential)",
+          "5/C01")
